@@ -1,4 +1,5 @@
 import Faithful.Lib.CompactIndexProofs
+import Faithful.Lib.CompactIndexBytes
 import Faithful.Generated.IntFns
 
 /-!
@@ -184,5 +185,115 @@ def toyHF : HF := ⟨fun k n => if n = 0 then none else some (k.length % n), fun
 example : ∃ ix, buildA toyHF 9 25000 [] [⟨[4,5], [8]⟩] = .ok ix ∧ lookupA toyHF ix [4,5] = .found [8] := by
   obtain ⟨ix, h⟩ := build_singleton_ok toyHF 9 25000 [] ⟨[4,5], [8]⟩ (by omega) (by omega) 2 (by decide) (by decide)
   exact ⟨ix, h, build_lookup toyHF 9 25000 [] _ ix h ⟨[4,5], [8]⟩ (by simp)⟩
+
+/-! ## the byte layer: `Open` / `Lookup` over the file `Seal` writes
+
+`CI.encode ix` is the file (compared byte for byte with the real builder's file on every run) and `CI.openB`,
+`CI.lookupB` are the Go `Open` / `Lookup` reading that file through `ReadAt` (`CI.rd`).  The theorems below replace
+the run-time `MODEL-LAYERS-DISAGREE` comparison by a proof: on the file of ANY successfully built index the
+byte-level reader opens without error and answers, for EVERY key, exactly what the abstract reader answers.
+
+Size hypotheses (all on the inputs of the build, all explicit; lemmas in `Faithful/Lib/CompactIndexBytes.lean`):
+* `MetaOk m`: the metadata obeys the `indexmeta` limits (≤ `MaxNumKVs` pairs, keys ≤ `MaxKeySize`, values ≤ `MaxValueSize`
+  bytes: one length byte each);
+* `vs ≤ 255 − HashSize`: the entry stride `HashSize + valueSize` is a `uint8` in the Go code;
+* `numBucketsFor declared < 2^32`: `Header.NumBuckets` is a `uint32`;
+* `kvs.length < 2^32`: `BucketHeader.NumEntries` is a `uint32`.
+Derived, not assumed: nonces < 1000 < 2^32 (`mineFrom` gives up after `mineAttempts`), stored hashes < 2^24
+(`HF.entry` masks to `HashSize` bytes), header length < 2^32, and the total file size < 2^48 so that the 6-byte
+`BucketHeader.FileOffset` is exact (`CI.encode_length_lt`).
+For the lookups, additionally every inserted value has exactly `vs` bytes (`Builder.Insert` refuses any other length;
+the model's `marshalEntry` would zero-pad a shorter one).
+No hypothesis on the hash functions: a key whose `hf.bucket` is out of range gets `.err` from both readers, one on
+which it does not terminate gets `.hang` from both. -/
+
+/-- `Open` succeeds on the sealed file and reads back value size, bucket count, metadata and header size. -/
+theorem open_encode (hf : HF) (vs declared : Nat) (m : List (Bytes × Bytes)) (kvs : List KV) (ix : IndexA)
+    (h : buildA hf vs declared m kvs = .ok ix)
+    (hm : MetaOk m) (hvs : vs ≤ 255 - Generated.hashSize)
+    (hnb : numBucketsFor declared < 2^32) (hn : kvs.length < 2^32) :
+    ∃ db, openB (encode ix).toArray = .ok db ∧
+      db.valueSize = ix.valueSize ∧ db.numBuckets = ix.numBuckets ∧ db.metaKVs = ix.metaKVs ∧
+      db.headerSize = (headerBytes ix.valueSize ix.numBuckets ix.metaKVs).length :=
+  ⟨_, openB_encode ix (encOk_of_build hf vs declared m kvs ix h hm hvs hnb hn), rfl, rfl, rfl, rfl⟩
+
+/-- **the two layers of the model agree**: on the sealed file, the byte-level `Lookup` (bucket header read, 24-bit
+    hash mask, eytzinger search over `ReadAt`) returns for EVERY key — present, absent, colliding, or hashing
+    outside the table — exactly the answer of the abstract `lookupA`. -/
+theorem lookup_bytes_agree (hf : HF) (vs declared : Nat) (m : List (Bytes × Bytes)) (kvs : List KV) (ix : IndexA)
+    (h : buildA hf vs declared m kvs = .ok ix)
+    (hm : MetaOk m) (hvs : vs ≤ 255 - Generated.hashSize)
+    (hnb : numBucketsFor declared < 2^32) (hn : kvs.length < 2^32)
+    (hval : ∀ kv ∈ kvs, kv.val.length = vs) :
+    ∃ db, openB (encode ix).toArray = .ok db ∧
+      ∀ key, lookupB hf (encode ix).toArray db key = lookupA hf ix key :=
+  ⟨_, openB_encode ix (encOk_of_build hf vs declared m kvs ix h hm hvs hnb hn),
+    lookupB_encode hf ix (encOk_of_build hf vs declared m kvs ix h hm hvs hnb hn)
+      (valsOk_of_build hf vs declared m kvs ix h hval)⟩
+
+/-- the same, for whatever `Open` returned (`openB` is a function, so `db` is the one of `open_encode`) -/
+theorem lookup_bytes_agree_db (hf : HF) (vs declared : Nat) (m : List (Bytes × Bytes)) (kvs : List KV) (ix : IndexA)
+    (h : buildA hf vs declared m kvs = .ok ix)
+    (hm : MetaOk m) (hvs : vs ≤ 255 - Generated.hashSize)
+    (hnb : numBucketsFor declared < 2^32) (hn : kvs.length < 2^32)
+    (hval : ∀ kv ∈ kvs, kv.val.length = vs)
+    (db : DB) (hdb : openB (encode ix).toArray = .ok db) (key : Bytes) :
+    lookupB hf (encode ix).toArray db key = lookupA hf ix key := by
+  obtain ⟨db', hdb', hall⟩ := lookup_bytes_agree hf vs declared m kvs ix h hm hvs hnb hn hval
+  rw [hdb] at hdb'
+  cases hdb'
+  exact hall key
+
+/-- **C04 at the byte level: every inserted key is found with exactly its value by `Open` + `Lookup` over the
+    sealed file.** -/
+theorem build_lookup_bytes (hf : HF) (vs declared : Nat) (m : List (Bytes × Bytes)) (kvs : List KV) (ix : IndexA)
+    (h : buildA hf vs declared m kvs = .ok ix)
+    (hm : MetaOk m) (hvs : vs ≤ 255 - Generated.hashSize)
+    (hnb : numBucketsFor declared < 2^32) (hn : kvs.length < 2^32)
+    (hval : ∀ kv ∈ kvs, kv.val.length = vs) :
+    ∃ db, openB (encode ix).toArray = .ok db ∧
+      ∀ kv ∈ kvs, lookupB hf (encode ix).toArray db kv.key = .found kv.val := by
+  obtain ⟨db, hdb, hall⟩ := lookup_bytes_agree hf vs declared m kvs ix h hm hvs hnb hn hval
+  exact ⟨db, hdb, fun kv hkv => by rw [hall kv.key]; exact build_lookup hf vs declared m kvs ix h kv hkv⟩
+
+/-- a hit of the byte-level reader is always an inserted pair from the same bucket with the same 24-bit hash -/
+theorem lookup_sound_bytes (hf : HF) (vs declared : Nat) (m : List (Bytes × Bytes)) (kvs : List KV) (ix : IndexA)
+    (h : buildA hf vs declared m kvs = .ok ix)
+    (hm : MetaOk m) (hvs : vs ≤ 255 - Generated.hashSize)
+    (hnb : numBucketsFor declared < 2^32) (hn : kvs.length < 2^32)
+    (hval : ∀ kv ∈ kvs, kv.val.length = vs) :
+    ∃ db, openB (encode ix).toArray = .ok db ∧
+      ∀ key v, lookupB hf (encode ix).toArray db key = .found v →
+        ∃ kv ∈ kvs, ∃ i b, hf.bucket key ix.numBuckets = some i ∧ hf.bucket kv.key ix.numBuckets = some i ∧
+          ix.buckets[i]? = some b ∧ hf.entry b.nonce kv.key = hf.entry b.nonce key ∧ kv.val = v := by
+  obtain ⟨db, hdb, hall⟩ := lookup_bytes_agree hf vs declared m kvs ix h hm hvs hnb hn hval
+  exact ⟨db, hdb, fun key v hl => lookup_sound hf vs declared m kvs ix h key v (by rw [← hall key]; exact hl)⟩
+
+/-- the byte-level versions for an arbitrary abstract index within the format limits (`CI.EncOk`: uint8 stride,
+    uint32 counts and nonces, 24-bit hashes, uint48 offsets; `CI.ValsOk`: values of exactly `valueSize` bytes),
+    not only for built ones — used by `build_perm` consumers that compare encodings -/
+theorem lookup_bytes_agree_encOk (hf : HF) (ix : IndexA) (ok : EncOk ix) (hv : ValsOk ix) :
+    ∃ db, openB (encode ix).toArray = .ok db ∧ ∀ key, lookupB hf (encode ix).toArray db key = lookupA hf ix key :=
+  ⟨_, openB_encode ix ok, lookupB_encode hf ix ok hv⟩
+
+/-! non-vacuity of the byte-level theorems: all hypotheses are jointly satisfiable (one key, 9-byte value, two
+    metadata pairs, three buckets, toy hash), and the conclusion is then a hit with the inserted value; an absent key
+    in another bucket is reported `notFound` by the byte-level reader too. -/
+example : ∃ ix db, buildA toyHF 9 25000 [([1], [2, 3]), ([], [7])] [⟨[4,5], [1,2,3,4,5,6,7,8,9]⟩] = .ok ix ∧
+    openB (encode ix).toArray = .ok db ∧ db.valueSize = 9 ∧ db.numBuckets = 3 ∧
+    lookupB toyHF (encode ix).toArray db [4,5] = .found [1,2,3,4,5,6,7,8,9] := by
+  obtain ⟨ix, h⟩ := build_singleton_ok toyHF 9 25000 [([1], [2, 3]), ([], [7])] ⟨[4,5], [1,2,3,4,5,6,7,8,9]⟩
+    (by omega) (by omega) 2 (by decide) (by decide)
+  have hm : MetaOk [([1], [2, 3]), ([], [7])] := by
+    refine ⟨by decide, ?_⟩
+    intro kv hkv
+    simp only [List.mem_cons, List.mem_nil_iff, or_false] at hkv
+    rcases hkv with rfl | rfl <;> decide
+  obtain ⟨db, hdb, hall⟩ := build_lookup_bytes toyHF 9 25000 _ _ ix h hm (by decide) (by decide) (by decide)
+    (by intro kv hkv; simp only [List.mem_cons, List.mem_nil_iff, or_false] at hkv; subst hkv; rfl)
+  obtain ⟨db', hdb', e1, e2, _, _⟩ := open_encode toyHF 9 25000 _ _ ix h hm (by decide) (by decide) (by decide)
+  rw [hdb] at hdb'; cases hdb'
+  obtain ⟨f1, f2, _⟩ := buildA_ok toyHF 9 25000 _ _ ix h
+  exact ⟨ix, db, h, hdb, by rw [e1, f1], by rw [e2, f2]; decide, hall ⟨[4,5], [1,2,3,4,5,6,7,8,9]⟩ (by simp)⟩
 
 end C04
